@@ -821,4 +821,25 @@ reachable from each function inside its package that the package changes after i
 theorem C09_tie_no_process_wide_state :
     Olla.Spec.State.reachesOnly "health.Check" [] = true := by decide
 
+/-! ### Long request documents (known finding `long-document-bypasses-model-routing`)
+
+The theorems above are about `handle`, which is given the endpoints that list the model the request names.  The code
+gets that name from the body inspector, which reads documents of at most `peekMax` bytes.  For those, `handleDoc` IS
+`handle` (`_partial`); for a longer document the routing stage never runs and the witness below — strict strategy,
+endpoints 0 and 2 healthy, only 2 lists the model — shows the request offered to endpoint 0.  Replayed on the tree by
+c09's documents of 1 MiB + 4 KiB and 3 MiB. -/
+
+theorem C09_long_document_partial (vs : Variants) (h : Handler) (typ fb : String) (rom : Bool)
+    (healthy listers : List Ep) (docLen : Nat) (hv : docLen ≤ peekMax) :
+    handleDoc vs h typ fb rom healthy listers docLen = handle vs h typ fb rom healthy listers := by
+  simp [handleDoc, modelVisible, hv]
+
+theorem C09_long_document_witness :
+    (handleDoc active .proxy strategyStrict fallbackCompatibleOnly false [0, 2] [2] (peekMax + 1)).forwardTo = [0, 2]
+    ∧ (handle active .proxy strategyStrict fallbackCompatibleOnly false [0, 2] [2]).forwardTo = [2] := by decide
+
+/-- the boundary is exactly `peekMax`: a document of that length is still routed by its model -/
+example : handleDoc active .proxy strategyStrict fallbackCompatibleOnly false [0, 2] [2] peekMax
+    = handle active .proxy strategyStrict fallbackCompatibleOnly false [0, 2] [2] := by decide
+
 end Olla.Props.C09
